@@ -1,6 +1,6 @@
 from __future__ import annotations
 import typing
-from types import CodeType
+from types import CodeType, FunctionType
 
 import sympy
 from structlog import get_logger
@@ -75,9 +75,19 @@ def get_scheme(scheme: str) -> scheme_func:
             stacklevel=3,
         )
 
-    # Replace the name of the function
-    func.__code__ = func.__code__.replace(co_name=scheme)
-    return func
+    # Return a copy of the function carrying the requested name. Renaming the shared
+    # module level function in place would also rename it for earlier callers.
+    renamed = FunctionType(
+        func.__code__.replace(co_name=scheme),
+        func.__globals__,
+        func.__name__,
+        func.__defaults__,
+        func.__closure__,
+    )
+    renamed.__kwdefaults__ = func.__kwdefaults__
+    renamed.__doc__ = func.__doc__
+    renamed.__annotations__ = func.__annotations__
+    return typing.cast(scheme_func, renamed)
 
 
 def list_schemes() -> list[str]:
